@@ -466,6 +466,28 @@ def run(ctx):
             dist["max_nodes"] = max(dist["max_nodes"], len(m.vrptw.nodes))
             dist["max_arcs"] = max(dist["max_arcs"], len(m.vrptw.arcs))
 
+    # ---- 1b. float builds far from the clock origin: the timing filter is an exact comparison, also when every time is
+    #          large (cargo 2^16: windows at multiples of 65536) and an arrival is late by a quarter of a unit ----
+    from vrpqubo.applications.mirp import MIRP
+    big = 65536.0
+    for extra in (0.0, 0.25, 1.0, -0.25, 8.0):
+        log = []
+        with recorded_calls(log):
+            m = MIRP(cargo_size=big, time_horizon=3 * big)
+            m.add_nodes("S1", 0.0, 1.0, 2 * big)            # visit windows (65536, 131072), (131072, 196608)
+            m.add_nodes("D1", 2 * big, -1.0, 2 * big)       # the same windows on the demand side
+            m.add_travel_arcs(lambda a, b, e=extra: big + e, 1.0, 1.0, {"S1": 1.0}, {"D1": 2.0})
+            m.add_exit_arcs()
+            m.add_entry_arcs(time_limit=2 * big + extra, travel_time=2 * big + extra)
+        spec = spec_from_log(log)
+        msg = check_alternation(m, stats=stats) or check_arcset(m, spec)
+        if msg:
+            report(sig_of(msg) + "/far-from-origin", f"MIRP with cargo size 65536 and distance 65536 + {extra}: {msg}",
+                   {"input": {"cargo_size": big, "time_horizon": 3 * big, "ports": [["S1", 0.0, 1.0, 2 * big], ["D1", 2 * big, -1.0, 2 * big]],
+                              "distance": big + extra, "speed": 1.0, "entry": {"time_limit": 2 * big + extra, "travel_time": 2 * big + extra}},
+                    "python": "props.c12.check_arcset on the MIRP built as in section 1b of props/c12.py"})
+        dist["far_from_origin_builds"] = dist.get("far_from_origin_builds", 0) + 1
+
     # ---- 2. exact builds: oracle + correspondence ----
     cases = []
     terms = []
